@@ -28,8 +28,8 @@ var killers = []struct{ name, src string }{
 	{"cpu-in-pcall-in-xpcall", `runtime.callcontext({kill = {cpu = 3000}}, function() xpcall(function() pcall(function() while true do end end) end, stale) end)`},
 	{"mem-in-xpcall", `runtime.callcontext({kill = {memory = 20000}}, function() xpcall(function() local t = {} while true do t[#t + 1] = {} end end, stale) end)`},
 	{"cpu-in-xpcall-in-coroutine", `runtime.callcontext({kill = {cpu = 3000}}, function() local co = coroutine.wrap(function() xpcall(function() while true do end end, stale) end) co() end)`},
-	{"cpu-in-handler", `runtime.callcontext({kill = {cpu = 3000}}, function() xpcall(function() error("x") end, function(m) while true do end end) end)`},
-	{"cpu-in-close-handler-in-xpcall", `runtime.callcontext({kill = {cpu = 3000}}, function() xpcall(function() local c <close> = setmetatable({}, {__close = function() while true do end end}) end, stale) end)`},
+	{"cpu-in-handler", `runtime.callcontext({kill = {cpu = 3000}}, function() xpcall(function() error("x") end, function(m) for i = 1, 10000000 do end emit("stale", "looping handler ran to its end", m) return "stale result 3" end) end)`},
+	{"cpu-in-close-handler-in-xpcall", `runtime.callcontext({kill = {cpu = 3000}}, function() xpcall(function() local c <close> = setmetatable({}, {__close = function() for i = 1, 10000000 do end emit("stale", "close handler ran to its end") end}) end, stale) end)`},
 	{"cpu-xpcall-of-callcontext", `xpcall(function() return runtime.callcontext({kill = {cpu = 3000}}, function() xpcall(function() while true do end end, stale2) end) end, stale)`},
 }
 
